@@ -2,7 +2,9 @@
    reaches its unreachable!().
 
    resolve_dp / run_loop_dp are twins of resolve / run_loop (Cdcl/Solver.v) that compute one bit: whether the
-   `None` branch of a call of decide is taken anywhere in the computation.  root_run_decide_never_panics: for
+   `None` branch of a call of decide (the unreachable!()) or the `None` branch of the assignment of the
+   candidate decide proposed (expect("bug: solvable was already decided!")) is taken anywhere in the
+   computation.  root_run_decide_never_panics: for
    the run of the root that bit is false, for every provider, problem, fuel, activity function and completion
    order -- at every state in which resolve calls decide the invariants of the model hold (SInv, LInv, RInv,
    CInv, KInv), every entry is propagated, the assertions are in force and the exempt set is empty, and there
@@ -30,7 +32,7 @@ Fixpoint resolve_dp (fuel : nat) (st : sst) (level : N) : bool :=
     | Some None => false
     | Some (Some d) =>
       match s_assign st (VSol (pd_cand d), true) (N.succ level) (pd_clause d) with
-      | None => false
+      | None => true                                        (* expect("bug: solvable was already decided!") *)
       | Some st1 =>
         match prop_learn U a_conflict f st1 (N.succ level) with
         | RLevel st2 lv => resolve_dp f st2 lv
@@ -94,9 +96,10 @@ Proof.
   induction fuel as [|f IH]; intros st level [[HS [HL [Hr HR]]] [HC [HK [HD Hb]]]] Htop; cbn [resolve_dp]; [reflexivity|].
   pose proof (decide_no_panic_at U P A a_ge st HS HK HC HD Hb Hr) as Hnp.
   destruct (decide U (a_ge (s_act st)) (s_db st) (tr_lits st)) as [[d|]|] eqn:Ed; [| reflexivity | exfalso; apply Hnp; reflexivity].
-  destruct (s_assign st (VSol (pd_cand d), true) (N.succ level) (pd_clause d)) as [st1|] eqn:Ea; [|reflexivity].
-  (* the state after the decision *)
   pose proof (decide_undecided U (a_ge (s_act st)) (tr_lits st) (s_db st) (sinv_req_wf U P A st HS) d Ed) as Hun.
+  destruct (s_assign st (VSol (pd_cand d), true) (N.succ level) (pd_clause d)) as [st1|] eqn:Ea.
+  2:{ exfalso. unfold s_assign in Ea. cbn [fst] in Ea. unfold pvalue in Ea. unfold tr_lits in Hun. rewrite Hun in Ea. discriminate. }
+  (* the state after the decision *)
   destruct (decide_lit_in U (a_ge (s_act st)) (tr_lits st) (s_db st) (sinv_req_wf U P A st HS) d Ed) as [c [Hc Hin]].
   assert (Hlt : (top_lv st < N.succ level)%N) by lia.
   destruct (linv_assign_dec A _ _ _ _ _ HL Hlt Ea) as [HL1 [_ Hr1]].
